@@ -1,0 +1,19 @@
+//go:build verif
+
+package polling
+
+import (
+	"time"
+
+	"github.com/karagenc/socket.io-go/engine.io/parser"
+)
+
+// Exported wrappers for the verification harness (build tag `verif`).
+
+type VerifPollQueue struct{ q *pollQueue }
+
+func VerifNewPollQueue() *VerifPollQueue                              { return &VerifPollQueue{q: newPollQueue()} }
+func (v *VerifPollQueue) Poll(timeout time.Duration) []*parser.Packet { return v.q.poll(timeout) }
+func (v *VerifPollQueue) Add(packets ...*parser.Packet)               { v.q.add(packets...) }
+func (v *VerifPollQueue) Get() []*parser.Packet                       { return v.q.get() }
+func (v *VerifPollQueue) Len() int                                    { return v.q.len() }
